@@ -272,6 +272,24 @@ func ruleCTMedia(r *Run) {
 			r.Check("ct-media", shortName(fn)+":namer", ps.MU.Pos(), false, "the media part name is not produced by a function of the image format: its extension cannot be matched with the registered content-type default")
 			continue
 		}
+		// single-table idiom: namer and registrar both read the extension from the same field of the
+		// same package-level table, indexed by the format — agreement by construction
+		if ng, nf, nv := tableExtension(p, namer); ng != nil {
+			if rg, rf, _ := tableExtension(p, registrar); rg == ng && rf == nf {
+				dotted := false
+				for _, ret := range returnsOf(namer) {
+					sym := symOf(retResult(ret, 0)).norm()
+					for i, part := range sym {
+						if part.Sym != nil && (part.Sym == nv || derivesFrom(part.Sym, nv)) && i > 0 && sym[i-1].Sym == nil && strings.HasSuffix(sym[i-1].Const, ".") {
+							dotted = true
+						}
+					}
+				}
+				r.Check("ct-media", shortName(fn)+":table", ps.MU.Pos(), dotted,
+					fmt.Sprintf("media part extension (%s) and registered content-type default (%s) are both read from field %s of the package-level table %s indexed by the image format; the part name must be \"<name>.\" + that extension (dot found: %v)", shortName(namer), shortName(registrar), nf.Name(), ng.Name(), dotted))
+				continue
+			}
+		}
 		names, _ := caseConsts(namer, func(s string) bool { return strings.HasPrefix(s, ".") })
 		regs, _ := caseConsts(registrar, func(s string) bool { return !strings.Contains(s, "/") && !strings.HasPrefix(s, ".") && s != "" })
 		var fmts []string
@@ -314,7 +332,7 @@ func ruleCTMedia(r *Run) {
 		r.Check("ct-media", shortName(fn)+":caller-extension", ps.MU.Pos(), !extFromName,
 			fmt.Sprintf("%s takes the extension of a media part of a known format from the caller's file name (filepath.Ext): a name such as photo.jpg or logo.PNG then has no registered content type", shortName(namer)))
 	}
-	r.Min("media_part_stores", n, 2)
+	r.Min("media_part_stores", n, 1)
 }
 
 // ---------------------------------------------------------------------------
@@ -513,4 +531,81 @@ func ruleSchemaOPC(r *Run) {
 				fmt.Sprintf("OPC element <%s> has attribute %s; the struct that is parsed on open and re-marshalled on save does not model it, so the attribute is lost (e.g. TargetMode=\"External\" of a hyperlink relationship: the link comes back as an internal, dangling target)", tn, a))
 		}
 	}
+}
+
+// tableExtension: fn looks its ImageFormat parameter up in a package-level map of structs and uses
+// a string field of the entry.  Returns the table, the field and the SSA value of the field read.
+func tableExtension(p *Program, fn *ssa.Function) (*ssa.Global, *types.Var, ssa.Value) {
+	var g *ssa.Global
+	var fld *types.Var
+	var val ssa.Value
+	allInstrs(fn, func(in ssa.Instruction) {
+		lk, ok := in.(*ssa.Lookup)
+		if !ok || g != nil {
+			return
+		}
+		ld, ok := lk.X.(*ssa.UnOp)
+		if !ok {
+			return
+		}
+		gl, ok := ld.X.(*ssa.Global)
+		if !ok {
+			return
+		}
+		keyIsFormat := false
+		for rt := range rootsOf(lk.Index) {
+			if par, ok := rt.(*ssa.Parameter); ok {
+				if nt, ok := par.Type().(*types.Named); ok && nt.Obj().Name() == "ImageFormat" {
+					keyIsFormat = true
+				}
+			}
+		}
+		if !keyIsFormat {
+			return
+		}
+		// string fields read from the entry; prefer the one whose name mentions the extension
+		seen := map[ssa.Value]bool{}
+		var walk func(v ssa.Value)
+		walk = func(v ssa.Value) {
+			if v == nil || seen[v] || v.Referrers() == nil {
+				return
+			}
+			seen[v] = true
+			for _, u := range *v.Referrers() {
+				switch x := u.(type) {
+				case *ssa.Extract:
+					walk(x)
+				case *ssa.Phi:
+					walk(x)
+				case *ssa.Field:
+					if isStringType(x.Type()) {
+						fv, _ := fieldOfVal(x)
+						if fv != nil && (fld == nil || strings.Contains(strings.ToLower(fv.Name()), "ext")) {
+							g, fld, val = gl, fv, x
+						}
+					} else {
+						walk(x)
+					}
+				case *ssa.Store:
+					// spilled into a local struct variable: follow its field reads
+					if al, ok := x.Addr.(*ssa.Alloc); ok && x.Val == v && al.Referrers() != nil {
+						for _, u2 := range *al.Referrers() {
+							if fa, ok := u2.(*ssa.FieldAddr); ok && fa.Referrers() != nil {
+								for _, u3 := range *fa.Referrers() {
+									if ld2, ok := u3.(*ssa.UnOp); ok && isStringType(ld2.Type()) {
+										fv, _ := fieldOfAddr(fa)
+										if fv != nil && (fld == nil || strings.Contains(strings.ToLower(fv.Name()), "ext")) {
+											g, fld, val = gl, fv, ld2
+										}
+									}
+								}
+							}
+						}
+					}
+				}
+			}
+		}
+		walk(lk)
+	})
+	return g, fld, val
 }
